@@ -747,26 +747,45 @@ fn run_range(exe: &std::path::Path, args: &Args, lo: u64, hi: u64, stall: Durati
     recs
 }
 
-/// known-finding classes: narrow executable predicates on the INPUT
+/// known-finding classes: narrow executable predicates on the INPUT (translator + byte patterns).  A case of a
+/// class is reported as KNOWN-FINDING only when its oracle fails; inputs of a class that lift correctly are
+/// unaffected.  The x86 predicates are byte-pattern searches over the whole string (a block may hold the
+/// offending instruction anywhere), deliberately syntactic: no decoder is involved.
 fn kf_tags(i: &Input) -> Vec<String> {
     let mut t = vec![];
-    let _ = i;
-    t.extend(kf_x86_branch_to_fallthrough(i));
-    t
-}
-/// x86 jcc / jcxz / loop whose displacement is zero (target = fall-through address), first instruction
-fn kf_x86_branch_to_fallthrough(i: &Input) -> Option<String> {
-    if i.tr > 1 {
-        return None;
-    }
     let b = &i.bytes;
-    let z = |s: &[u8]| s.iter().all(|x| *x == 0);
-    let hit = match b.as_slice() {
-        [op, 0, ..] if (0x70..=0x7f).contains(op) || (0xe0..=0xe3).contains(op) => true,
-        [0x0f, op, d @ ..] if (0x80..=0x8f).contains(op) && d.len() >= 4 && z(&d[..4]) => true,
-        _ => false,
-    };
-    if hit { Some("kf:x86-jcc-to-fallthrough".into()) } else { None }
+    if i.tr <= 1 {
+        // address-size override: effective addresses are built from 16-bit (x86) / 32-bit (amd64) registers and
+        // used as Load/Store indices without extension to the architecture's address width
+        if b.contains(&0x67) {
+            t.push("kf:x86-address-size-prefix".to_string());
+        }
+        // mov Sreg, r/m16: the 16-bit source is assigned to the 32/64-bit scalar that stands for the segment register
+        if b.contains(&0x8e) {
+            t.push("kf:x86-mov-sreg-width".to_string());
+        }
+        // call / jmp with an operand-size override (16-bit target), a REX prefix, or a far pointer operand (ff /3, ff /5):
+        // Branch target narrower / wider than the architecture's address width
+        // (amd64: also a REX prefix before a direct call / jmp, which yields a 32-bit target constant)
+        let pfx = |x: u8| x == 0x66 || (i.tr == 1 && (0x40..=0x4f).contains(&x));
+        let near16 = (0..b.len()).any(|k| pfx(b[k]) && b[k + 1..].iter().take(3).any(|x| matches!(x, 0xe8 | 0xe9 | 0xff)));
+        let far = b.windows(2).any(|w| w[0] == 0xff && w[1] < 0xc0 && matches!((w[1] >> 3) & 7, 3 | 5));
+        if near16 || far {
+            t.push("kf:x86-branch-target-width".to_string());
+        }
+        // amd64 bsf / bsr with both an operand-size override and REX.W: 16-bit result assigned to a 64-bit register
+        if i.tr == 1 && b.contains(&0x66) && b.windows(2).any(|w| w[0] == 0x0f && matches!(w[1], 0xbc | 0xbd)) {
+            t.push("kf:amd64-bsf-bsr-opsize-rexw".to_string());
+        }
+    }
+    if i.tr >= 5 {
+        // A64 words of the SVE encoding group (bits 28..25 = 0010) reach `Expression::add(..).unwrap()` & co. with
+        // operands of different widths
+        if b.chunks(4).any(|w| w.len() == 4 && (u32::from_le_bytes([w[0], w[1], w[2], w[3]]) >> 25) & 0xf == 0b0010) {
+            t.push("kf:a64-sve-operand-widths".to_string());
+        }
+    }
+    t
 }
 
 fn main() {
